@@ -325,6 +325,10 @@ func (b *bufferWriter) Write(buf []byte) (int, error) {
 
 // WriteHeader sets rw.Code.
 func (b *bufferWriter) WriteHeader(code int) {
+	// Informational responses (e.g. 103 Early Hints) precede the final status, they do not replace it.
+	if code >= 100 && code < 200 && code != http.StatusSwitchingProtocols {
+		return
+	}
 	b.code = code
 }
 
